@@ -14,6 +14,8 @@
 package c19
 
 import (
+	"syscall"
+	"os"
 	"bytes"
 	"crypto/sha256"
 	"encoding/json"
@@ -492,6 +494,11 @@ func (sc *readScenario) runReadCur(src *faultSrc, progress *atomic.Value) (outs 
 			set("Decode")
 			d, err := pdf.Decode(pdf.CursorAt(x, nil), o.Ref, deepDecode)
 			mk("Decode", d, err)
+			// ... and once more through the same Extractor: a call that failed
+			// must not leave anything behind that changes the next answer
+			set("DecodeAgain")
+			d, err = pdf.Decode(pdf.CursorAt(x, nil), o.Ref, deepDecode)
+			mk("DecodeAgain", d, err)
 		}
 	}
 	return outs
@@ -894,6 +901,15 @@ func run(ctx *core.Ctx) error {
 		ctx.Logf("%s (seed %d): %d bytes; %d sink operations (Write/Seek); all positions x {failFrom, failOnly} x {nothing written, half, all but the last 16/64/256 bytes}", sp.Name, sp.Seed, size, nw)
 	}
 
+	// sinks the Writer owns (pdf.Create)
+	{
+		di := len(specs)
+		specs = append(specs, docSpec{Name: "create:/dev/full"})
+		own := ownedSinkRuns(ctx, di)
+		runs = append(runs, own...)
+		ctx.Logf("pdf.Create on /dev/full: %d sessions", len(own))
+	}
+
 	if err := judgeAndReport(ctx, runs, specs); err != nil {
 		return err
 	}
@@ -1086,6 +1102,8 @@ func callIndexOfReads(sc *readScenario, doc *shared.Doc, n int) []string {
 			if wantsDecode(doc, i) {
 				pdf.Decode(pdf.CursorAt(x, nil), o.Ref, deepDecode)
 				snap(fmt.Sprintf("Decode#%d", i))
+				pdf.Decode(pdf.CursorAt(x, nil), o.Ref, deepDecode)
+				snap(fmt.Sprintf("DecodeAgain#%d", i))
 			}
 		}
 	}()
@@ -1140,6 +1158,59 @@ func enumerateWrite(ctx *core.Ctx, sp docSpec, di int, st *stats) ([]readRun, in
 		ctx.Ev.Sample(map[string]any{"kind": "Writer session under one sink fault plan (judged by Trace_IOFault)", "run": out[len(out)/2]})
 	}
 	return out, n, len(baseData), nil
+}
+
+// ownedSinkRuns: a Writer that owns its sink (pdf.Create) on a device where
+// every write fails (/dev/full).  A small document stays in the Writer's
+// buffer until Close, whose final flush is then the first and only failing
+// write; larger ones fail earlier.  Some call, Close at the latest, must
+// return the device's error.
+func ownedSinkRuns(ctx *core.Ctx, di int) []readRun {
+	if _, err := os.Stat("/dev/full"); err != nil {
+		ctx.Ev.Assume("no /dev/full on this machine: sinks owned by the Writer (pdf.Create) are not covered")
+		return nil
+	}
+	var out []readRun
+	for k, n := range []int{0, 1, 5, 40, 400, 3000} {
+		var outs []wOut
+		func() {
+			defer func() {
+				if r := recover(); r != nil {
+					outs = append(outs, wOut{Cls: "panic", Call: fmt.Sprint(r)})
+				}
+			}()
+			mk := func(call string, err error) bool {
+				if err != nil {
+					outs = append(outs, wOut{Cls: "err", Carries: errors.Is(err, syscall.ENOSPC), Call: call})
+					return false
+				}
+				return true
+			}
+			w, err := pdf.Create("/dev/full", []pdf.Version{pdf.V1_7, pdf.V1_4, pdf.V2_0}[k%3], nil)
+			if !mk("Create", err) {
+				return
+			}
+			pages := w.Alloc()
+			if !mk("Put", w.Put(pages, pdf.Dict{"Type": pdf.Name("Pages"), "Kids": pdf.Array{}, "Count": pdf.Integer(0)})) {
+				w.Close()
+				return
+			}
+			w.GetMeta().Catalog.Pages = pages
+			for i := 0; i < n; i++ {
+				if !mk("Put", w.Put(w.Alloc(), pdf.Dict{"I": pdf.Integer(i), "S": pdf.String("some text to fill the buffer")})) {
+					w.Close()
+					return
+				}
+			}
+			if mk("Close", w.Close()) {
+				outs = append(outs, wOut{Cls: "ok", Call: "Close"})
+			}
+		}()
+		out = append(out, readRun{Side: "write", Doc: fmt.Sprintf("create:/dev/full:%d-objects", n), Mode: "owned", Plan: faultPlan{Plan: "failFrom", K: 1}, Hit: true,
+			Same: false, Calls: []callOut{}, Outs: outs, Count: 1, At: "os.(*File).Write", Via: "pdf.Create", docIx: di})
+	}
+	ctx.Ev.Eval(len(out))
+	return out
 }
 
 func outcomeClass(c callOut) string {
